@@ -74,6 +74,10 @@ def main():
     if patch != os.path.abspath("none"):
         r = sh(["git", "-C", REPO, "apply", patch])
         if r.returncode != 0:
+            # HEAD moved under the patch (later hook/fix commits): three-way apply, then unstage
+            r = sh(["git", "-C", REPO, "apply", "-3", patch])
+            sh(["git", "-C", REPO, "reset", "-q"])
+        if r.returncode != 0:
             print(f"SEED {patch} APPLY-FAILED {r.stdout.strip()[:300]}")
             return 2
     env = dict(os.environ, VERIF_SEED=seed, VERIF_TIER=tier)
